@@ -249,7 +249,7 @@ class Gen:
     (unknown names, wrong arity, errors in the wrong place, unknown targets, bad deriving …)."""
 
     NAMES = ['t0', 't1', 't2', 't3', 'x', 'y', 'foo_bar', 'Zed', 'a1', 'enumx', 'mainly']
-    NSS = [[], ['n1'], ['n1', 'n2'], ['n3'], ['n1', 'n2', 'n4'], ['m_x'], ['n1', 'n2', 'n1'], ['n3', 'n3']]
+    NSS = [[], ['n1'], ['n1', 'n2'], ['n3'], ['n1', 'n2', 'n4'], ['m_x'], ['n1', 'n2', 'n1'], ['n3', 'n3'], ['n12']]
     FLAGS_OK = ['+cpp', '-cpp', '+java', '-java', '+objc', '-objc', '+cppcli', '-cppcli', '+yaml', '-yaml', '+any']
     FLAGS_BAD = ['+zz', '-zz', '+jav']
 
@@ -896,15 +896,20 @@ class Sandbox:
                 model_files[vp] = {"bad": True}
         return root, model_files
 
-    def run(self, files: dict, root_file: str, cwd: str = "/w", include_dirs=(), default_deriving=(), timeout=None):
-        """-> (impl outcome, model request)"""
+    def run(self, files: dict, root_file: str, cwd: str = "/w", include_dirs=(), default_deriving=(), timeout=None, configured=False):
+        """-> (impl outcome, model request); configured: every generator is configured, so that parsing also attaches
+        each target's marshalling objects to the AST (what the command line and the language server do)"""
         root, model_files = self.materialise(files)
         real_cwd = root / cwd.lstrip("/")
         real_cwd.mkdir(parents=True, exist_ok=True)
         old = os.getcwd()
         os.chdir(real_cwd)
         try:
-            ctx = make_context(default_deriving=default_deriving, include_dirs=include_dirs)
+            extra = None
+            if configured:
+                import genrun
+                extra = genrun.default_config()["generate"]
+            ctx = make_context(default_deriving=default_deriving, include_dirs=include_dirs, generate_extra=extra)
             impl = real_parse(ctx, root / root_file.lstrip("/"), root)
         finally:
             os.chdir(old)
@@ -940,7 +945,7 @@ def _worker(args):
     signal.signal(signal.SIGALRM, on_alarm)
     for case in chunk:
         files, root = case["files"], case["root"]
-        kw = {k: case[k] for k in ("cwd", "include_dirs", "default_deriving") if k in case}
+        kw = {k: case[k] for k in ("cwd", "include_dirs", "default_deriving", "configured") if k in case}
         signal.alarm(per_input_timeout)
         try:
             impl, req = sb.run(files, root, **kw)
